@@ -11,8 +11,9 @@
    Missing for the full statement [to_text u = canon_ip6 s]: two facts about the address code alone,
      parse_ip4 h = Some o -> concat (ip4_pieces o 0) = h            (octet printing inverts parse_ip4)
      concat (ip6_byte_pieces (ip6_bytes h) 0) = groups_text (ip6_value h)   for accepted literals
-   Proofs/ParseRecompose.v derives the IPv4 case (parse_to_text_ip4) and the IPv6 case
-   (parse_to_text_ip6_canon) from them as explicit hypotheses. *)
+   Proofs/ParseRecompose.v derives the IPv4 case (parse_to_text_ip4), the IPv6 case
+   (parse_to_text_ip6_canon) and the full statement (parse_to_text_canon:
+   forall s u, parse s = POk u -> to_text u = canon_ip6 s) from them as explicit hypotheses. *)
 From Coq Require Import List NArith Bool String.
 From UP Require Import Base.Chars Model.Uri Model.Ip4 Model.Parse Model.Recompose Spec.Unparse
   Proofs.ParseSplit Proofs.ParseRecompose.
